@@ -75,6 +75,8 @@ def gen(rng):
     if f is not None:
         url += "#" + f
     sc = {"property": ID, "url": url, "via": rng.choice(["direct", "direct", "direct", "proxy"])}
+    if sc["via"] == "proxy" and rng.random() < 0.3:
+        sc["proxy_port"] = "default"  # the proxy's own URL carries no port
     if rng.random() < 0.12 and q != "":  # (urljoin drops an empty query from a Location: another URL, not this check's business)
         # the URL is reached by following a redirect from another host through the same manager: everything the wire says about the
         # second request must still be what *its* URL says
@@ -197,7 +199,8 @@ def run(sc: dict) -> Result:
     if via == "proxy":
         if sc.get("connect_fault"):
             w.connects.append({"k": sc["connect_fault"]})
-        w.listen(None, 3128, H.origin_factory("proxy", "proxy"))
+        pport = 80 if sc.get("proxy_port") == "default" else 3128  # (a proxy URL without a port means port 80, like any http URL)
+        w.listen(None, pport, H.origin_factory("proxy", "proxy"))
         w.tunnel_factory = lambda w_, chan, target: T.TlsPeer(w_, chan, lambda w2, c: P.HttpPeer(w2, c, "origin-in-tunnel", "origin", True), cert="any", name="origin-in-tunnel")
     else:
         w.tags["tls_ports"] = {u0["port"]: u0["scheme"] == "https"}
@@ -208,7 +211,7 @@ def run(sc: dict) -> Result:
             w.tags.setdefault("tls_ports", {})[80] = False
     with H.RunEnv(), H.quiet_warnings(), w:
         kw = dict(cert_reqs="CERT_NONE", timeout=3.0, retries=(2 if (sc.get("dns_fail_once") or sc.get("via_redirect_from")) else False))
-        pm = urllib3.ProxyManager("http://proxy.test:3128", **kw) if via == "proxy" else urllib3.PoolManager(**kw)
+        pm = urllib3.ProxyManager("http://proxy.test" if sc.get("proxy_port") == "default" else "http://proxy.test:3128", **kw) if via == "proxy" else urllib3.PoolManager(**kw)
         outs = []
         for url in urls:
             try:
@@ -309,7 +312,7 @@ def check(sc, w, u, res, via):
             wraps = [t for t in w.tls_log if t[0] == "client_wrap"]
             check_sni(wraps[0][2] if wraps else None, u, res)
     else:
-        if not dials or dials[0][1] != 3128 or (lookups and lookups[0] != "proxy.test"):
+        if not dials or dials[0][1] != (80 if sc.get("proxy_port") == "default" else 3128) or (lookups and lookups[0] != "proxy.test"):
             res.bad("proxy_bypassed", f"dials {dials}, lookups {lookups}")
         if u["scheme"] == "http":
             res.probes["proxy_forward"] += 1
